@@ -123,6 +123,7 @@ func runC06(w *World, c *Check) {
 	c.Rule("C06.wrappers", "each etype method forwards key, data, usage and itself to the family function in the callee's roles", 42)
 	c.Rule("C06.usage", "Ke/Ki/Kc octets are pairwise distinct and follow the usage number", 4)
 	c.Rule("C06.flow", "the protocol key, the usage and the message bytes each flow into the integrity-hash computation of every verifier; the MAC is read from the RFC's position", 6)
+	c.Rule("C06.coverage", "each decryptor splits the message into body ‖ MAC with no byte outside both: DecryptData gets everything but the trailing MAC, VerifyIntegrity the whole message", 9)
 	c.Rule("C06.aliases", "the only colliding RC4 usages are 3→8, 9→8, 23→13", 5)
 
 	type dm struct {
@@ -172,6 +173,8 @@ func runC06(w *World, c *Check) {
 	checkCalls(w, c, "C06.verify-first", "crypto.DecryptEncPart", []CallSpec{
 		{Name: "forwards", Desc: "DecryptEncPart decrypts the Cipher field with the given key and usage", Callee: `crypto\.DecryptMessage`, Want: `crypto\.DecryptMessage\(ed\.Cipher, key, usage\)`},
 	})
+
+	ruleDecryptShape(w, c, "C06.coverage")
 
 	// ---- rule 2: what VerifyIntegrity compares -------------------------------
 	ruleWholeCompare(w, c, "C06.compare", "crypto/rfc3961.VerifyIntegrity",
